@@ -207,4 +207,18 @@ theorem reverse_chain_bag_outputs (bi bo : List BNode) (inh : NameSet) (c : BCtx
           intro n hn
           exact List.mem_append.2 (Or.inl hn)
 
+/-- what a layer's context returns when it is reversed on nodes with pairwise different names (its own backward outputs have pairwise
+different names too): its backward outputs and the clones of the inherited names; the stitches and the pass edges -/
+theorem bag_ctx_reverse (bi bo : List BNode) (inh : NameSet) (outs : List BNode) (next : Nat) (hnd : (names outs).Nodup)
+    (hbo : (names bo).Nodup) :
+    (BCtx.bag bi bo inh).reverse outs next =
+      .ok (bo ++ (cloneEdges false (outs.filter fun m => inh.mem m.name && !(names bo).contains m.name) next).1,
+           (bi.filterMap fun n => (byName outs n.name).map fun o => identityEdge o n) ++
+             (cloneEdges false (outs.filter fun m => inh.mem m.name && !(names bo).contains m.name) next).2.1,
+           (cloneEdges false (outs.filter fun m => inh.mem m.name && !(names bo).contains m.name) next).1,
+           (cloneEdges false (outs.filter fun m => inh.mem m.name && !(names bo).contains m.name) next).2.2) := by
+  have hd : hasDupStr (List.map (fun x : BNode => x.name) outs) = false := hasDupStr_of_nodup hnd
+  have hd2 : hasDupStr (List.map (fun x : BNode => x.name) bo) = false := hasDupStr_of_nodup hbo
+  simp only [BCtx.reverse, checkDups, names, bind, Except.bind, Bool.false_eq_true, if_false, hd, hd2]
+
 end CM
